@@ -184,6 +184,9 @@ def mon_C02(run):
 
 def mon_C11(run):
     """status(): exact when nothing is in progress, plausible always"""
+    if isinstance(run, URun):
+        # the unmanaged pool reports through the same `Status`: exact at rest (mon_C05's rules)
+        return mon_C05(run)
     bad = []
     cur_max = run.max0
     closed = False
